@@ -349,7 +349,9 @@ fn run_case(case: &J) -> J {
         recs.extend(net.drain(60));
         let mut ss: Vec<Snapshot> = vec![];
         for r in recs {
-            if r.out.panic.is_none() && r.out.code == 0 && !ss.iter().any(|s| s.data == r.out.data) {
+            // every successful run is a snapshot: no de-duplication by bytes (the byte order of the maps inside the
+            // data depends on hash seeds, the number of snapshots must not)
+            if r.out.panic.is_none() && r.out.code == 0 {
                 ss.push(Snapshot { owner: r.peer, data: r.out.data.clone() });
             }
             if step_pairs {
@@ -508,7 +510,8 @@ fn one_pair(sp: &PairSpec, peers: &[Peer], init: usize, particle: &str, scripts:
         Ok(d) if out.panic.is_none() => c::list(store_sorted(&d.signatures).iter().map(|(k, s)| c::pair(&c::s(k), &table.term_known(s)))),
         _ => "[]".to_string(),
     };
-    let same = out.data == prev_bytes;
+    // only meaningful for a failed run (a successful run that changes nothing may still permute the maps inside the bytes)
+    let same = out.code != 0 && out.data == prev_bytes;
     let run_term = format!("(Some (MkRun {} {} {} {}))", c::s(&obs.id), c::z(out.code as i128), c::b(same), out_sigs);
 
     let term = format!("(MkCase {} {} {} {} {} {})", c::s(salt), c::b(cid_ok), prev_term, cur_term, direct_term, run_term);
